@@ -336,13 +336,23 @@ class CallMixin:
         for lbl, f in k.defines_:
             s2.assume(f(pre))
         old_heap = dict(s2.heap)
+        # the result value exists before the frame is applied so that a frame clause can name it ("changes only at the returned object")
+        if getattr(k, "fresh_result", False) and ret_ty.kind in ("obj", "list", "dict", "set"):
+            # the callee returns a newly allocated object: the executor allocates it (birth time = now), the callee's own allocations follow
+            res = self.allocate(s2, ret_ty, "ret", pin_class=False)      # dynamic class: given by the contract (may be a subclass)
+        else:
+            res = V.fresh(ret_ty, "ret") if ret_ty.kind not in ("none",) else V.NONEV
+        if res.ty.kind == "ntuple":
+            c = self.tree.cls(res.ty.args[0])
+            res = Val(res.ty, None, items={n: V.fresh(self.type_of_annotation(a, c.module, c), "ret_" + n) for n, a in c.fields})
+        pre = S.SpecState(self, env, st.heap, st.heap, res)
         for spec, refs in k.modifies_:
             for key in self.heap_keys_of(s2.heap, spec):
                 old = s2.heap[key]
                 if isinstance(refs, S._FreshOnly):
                     new = z3.Const(V.fresh_name("Hc_" + "_".join(str(x) for x in key)), old.sort())
                     fr_r = z3.Const("fo_r", V.Ref)
-                    keep = z3.Select(self.alloc_arr(old_heap), fr_r)
+                    keep = self.is_alloc(old_heap, fr_r)
                     for r in (refs.refs(pre) if refs.refs is not None else []):
                         keep = z3.And(keep, fr_r != (r.t if hasattr(r, "t") else r))
                     s2.assume(z3.ForAll([fr_r], z3.Implies(keep, z3.Select(new, fr_r) == z3.Select(old, fr_r))))
@@ -350,8 +360,7 @@ class CallMixin:
                 elif refs is None:
                     s2.heap[key] = z3.Const(V.fresh_name("Hc_" + "_".join(str(x) for x in key)), old.sort())
                     if key == ("alloc",):
-                        al_r = z3.Const("al_r", V.Ref)       # allocation only grows
-                        s2.assume(z3.ForAll([al_r], z3.Implies(z3.Select(old, al_r), z3.Select(s2.heap[key], al_r))))
+                        s2.assume(s2.heap[key] >= old)       # the allocation clock only moves forward
                 else:
                     new = old
                     for r in refs(pre):
@@ -370,7 +379,7 @@ class CallMixin:
                 if not self.feasible_with(s3, c):
                     continue
                 s3.assume(c)
-            xpost = S.SpecState(self, env, s3.heap, old_heap)
+            xpost = S.SpecState(self, env, s3.heap, old_heap, None, {"skolem": {}})
             for xexc, xl, xf in k.exc_ensures_:
                 if self.exc_subclass(exc, xexc):
                     s3.assume(xf(xpost))
@@ -382,14 +391,12 @@ class CallMixin:
                 s4.assume(z3.Not(when(pre)))
         if not self.feasible(s4):
             return out
-        res = V.fresh(ret_ty, "ret") if ret_ty.kind not in ("none",) else V.NONEV
-        if res.ty.kind == "ntuple":
-            c = self.tree.cls(res.ty.args[0])
-            res = Val(res.ty, None, items={n: V.fresh(self.type_of_annotation(a, c.module, c), "ret_" + n) for n, a in c.fields})
         self.assume_wf(s4, res)
-        post = S.SpecState(self, env, s4.heap, old_heap, res)
+        post = S.SpecState(self, env, s4.heap, old_heap, res, {"skolem": {}})
         for lbl, f in k.ensures_:
             s4.assume(f(post))
+        for wv in post.extra["skolem"].values():
+            self.assume_wf(s4, wv)
         out.append(("val", s4, res))
         return out
 
@@ -401,7 +408,7 @@ class CallMixin:
             self.assume_closed(s, v, 2)
         elif v.ty.kind == "opt" and v.ty.args[0].kind == "obj":
             inner = V.deopt(v)
-            s.assume(z3.Or(v.none, z3.And(z3.Select(self.alloc_arr(s.heap), v.t), self.class_domain(inner))))
+            s.assume(z3.Or(v.none, z3.And(self.is_alloc(s.heap, v.t), self.class_domain(inner))))
         elif v.ty.kind in ("list", "dict", "set"):
             self.assume_allocated(s, v)
         elif v.ty.kind == "tuple" and v.items:
@@ -434,7 +441,7 @@ class CallMixin:
                 continue
             if inner.kind == "obj" and not self.reaches_collection(inner.args[0], depth - 1):
                 continue            # only chains that end in a list/dict/set matter for frame reasoning; keeps arithmetic VCs small
-            al = z3.Select(self.alloc_arr(s.heap), fv.t)
+            al = self.is_alloc(s.heap, fv.t)
             if t.kind == "opt":
                 s.assume(z3.Or(fv.none, al))
             else:
@@ -781,7 +788,7 @@ class CallMixin:
         et = self.list_elem_ty(src)
         key = self.key_term_fn(keyf, et, s, fr, node)
         n = self.coll_len(s.heap, src)
-        old = z3.Select(self.list_arr(s.heap, src), src.t)
+        old = V.sel(self.list_arr(s.heap, src), src.t)
         hk = ("lel", V.sort_key(V.sort_of(et)))
         new = z3.Const(V.fresh_name("sorted_el"), old.sort())
         s.heap[hk] = z3.Store(self.list_arr(s.heap, src), dst.t, new)
@@ -791,8 +798,10 @@ class CallMixin:
         q = z3.Function(V.fresh_name("srt_q"), z3.IntSort(), z3.IntSort())
         rng = lambda x: z3.And(0 <= x, x < n)
         s.assume(z3.ForAll([i, j], z3.Implies(z3.And(0 <= i, i < j, j < n), key(z3.Select(new, i)) <= key(z3.Select(new, j)))))
-        s.assume(z3.ForAll([i], z3.Implies(rng(i), z3.And(rng(p(i)), q(p(i)) == i, z3.Select(new, i) == z3.Select(old, p(i))))))
-        s.assume(z3.ForAll([j], z3.Implies(rng(j), z3.And(rng(q(j)), p(q(j)) == j))))
+        s.assume(z3.ForAll([i], z3.Implies(rng(i), z3.And(rng(p(i)), q(p(i)) == i, z3.Select(new, i) == z3.Select(old, p(i)))),
+                           patterns=[z3.Select(new, i), p(i)]))
+        s.assume(z3.ForAll([j], z3.Implies(rng(j), z3.And(rng(q(j)), p(q(j)) == j, z3.Select(new, q(j)) == z3.Select(old, j))),
+                           patterns=[q(j), z3.Select(old, j)]))
         s.assume(z3.ForAll([i, j], z3.Implies(z3.And(0 <= i, i < j, j < n, key(z3.Select(new, i)) == key(z3.Select(new, j))), p(i) < p(j))))
         if et.kind == "obj":
             # A-ANNOT for list elements: every element's dynamic class is a concrete subclass of the element type
@@ -848,7 +857,7 @@ class CallMixin:
             r = self.allocate(s, it.ty, "lcopy")
             n = self.coll_len(s.heap, it)
             arr = self.list_arr(s.heap, it)
-            s.heap[("lel", V.sort_key(V.sort_of(self.list_elem_ty(it))))] = z3.Store(arr, r.t, z3.Select(arr, it.t))
+            s.heap[("lel", V.sort_key(V.sort_of(self.list_elem_ty(it))))] = z3.Store(arr, r.t, V.sel(arr, it.t))
             s.heap[("llen",)] = z3.Store(s.heap[("llen",)], r.t, n)
             return self.val(s, r)
         if it.ty.kind == "obj":
@@ -869,9 +878,9 @@ class CallMixin:
             raise OutOfSubset(f"copy of {v.ty}")
         s = st.copy()
         r = z3.Const(V.fresh_name("copy"), V.Ref)
-        a = self.alloc_arr(s.heap)
-        s.assume(z3.Not(z3.Select(a, r)))
-        s.heap[("alloc",)] = z3.Store(a, r, True)
+        nw = self.now(s.heap)
+        s.assume(self.born(r) == nw)
+        s.heap[("alloc",)] = nw + 1
         s.assume(V.cls_of(r) == V.cls_of(v.t))
         q = v.ty.args[0]
         # all instance fields of the class and its bases and subclasses (dynamic class may be a subclass)
@@ -957,20 +966,28 @@ class CallMixin:
                         res = self.coerce(res, ret_ty)
                     except OutOfSubset:
                         pass
-                post = S.SpecState(self, env, s.heap, old_heap, res)
+                post = S.SpecState(self, env, s.heap, old_heap, res, {"locals": s.env})
                 for lbl, f in k.ensures_:
-                    self.vc(s, f(post), "post", lbl, fi.node, fr)
+                    try:
+                        g = f(post)
+                    except S.NoWitness as nw:
+                        g, _ = z3.BoolVal(False), self.notes.append(f"{qual}/post.{lbl}: {nw}")
+                    self.vc(s, g, "post", lbl, fi.node, fr)
                 for lbl, exc, when, iff in k.raises_:
                     if iff and when is not None:
                         self.vc(s, z3.Not(when(S.SpecState(self, env, old_heap, old_heap))), "raises", f"{lbl}.must_raise", fi.node, fr)
                 if k.modifies_declared:
-                    self.frame_vcs(k, s, old_heap, env, fi, fr)
+                    self.frame_vcs(k, s, old_heap, env, fi, fr, res)
             elif kind == "raise":
                 name = v.aux
                 prestate = S.SpecState(self, env, old_heap, old_heap)
                 for xexc, xl, xf in k.exc_ensures_:
                     if self.exc_subclass(name, xexc):
-                        self.vc(s, xf(S.SpecState(self, env, s.heap, old_heap)), "raises", f"{name}.{xl}", fi.node, fr)
+                        try:
+                            g = xf(S.SpecState(self, env, s.heap, old_heap, None, {"locals": s.env}))
+                        except S.NoWitness as nw:
+                            g, _ = z3.BoolVal(False), self.notes.append(f"{qual}/raises.{name}.{xl}: {nw}")
+                        self.vc(s, g, "raises", f"{name}.{xl}", fi.node, fr)
                 if any(self.exc_subclass(name, nv) for nv in k.never_):
                     self.vc(s, False, "noraise", name, fi.node, fr)
                     continue
@@ -994,12 +1011,12 @@ class CallMixin:
             out[k] = z3.Const(name, h.sort())
         return out
 
-    def frame_vcs(self, k: S.Contract, s: State, old_heap: dict, env, fi, fr) -> None:
+    def frame_vcs(self, k: S.Contract, s: State, old_heap: dict, env, fi, fr, res=None) -> None:
         allowed: Dict[object, Optional[Callable]] = {}
         for spec, refs in k.modifies_:
             for key in self.heap_keys_of(s.heap, spec):
                 allowed[key] = refs
-        pre = S.SpecState(self, env, old_heap, old_heap)
+        pre = S.SpecState(self, env, old_heap, old_heap, res)
         alloc0 = old_heap.get(("alloc",))
         r = z3.Const("frame_r", V.Ref)
         for key, h in s.heap.items():
@@ -1008,9 +1025,9 @@ class CallMixin:
             h0 = old_heap.get(key)
             if h0 is None or h.eq(h0):
                 continue
-            if h.sort().domain() != V.Ref:
+            if not z3.is_array(h) or h.sort().domain() != V.Ref:
                 continue
-            cond = z3.Select(alloc0, r) if alloc0 is not None else z3.BoolVal(True)
+            cond = (self.born(r) < alloc0) if alloc0 is not None else z3.BoolVal(True)
             if key in allowed:
                 refs = allowed[key]
                 if isinstance(refs, S._FreshOnly):
